@@ -32,7 +32,8 @@ def _named(clauses, prefix):
 
 class Contract:
     def __init__(self, key, props, params, requires=None, ensures=None, modifies=(), loops=None, ghost=None,
-                 returns=None, raises=None, call_ghost=None, gen=None, notes="", obligations_for=None):
+                 returns=None, raises=None, call_ghost=None, gen=None, notes="", obligations_for=None,
+                 assumed=None, after_loop=None, hints=None, rt_only=None):
         self.key = key
         self.path, self.qualname = key.split("::")
         self.name = self.qualname.split(".")[-1]
@@ -55,6 +56,14 @@ class Contract:
         self.notes = notes
         # obligations_for: clause-name prefix -> property ids it serves (default: all props of the contract)
         self.obligations_for = obligations_for or {}
+        # assumed: ensures clauses relied upon by callers and checked at run time, but NOT proved (listed as assumptions)
+        self.assumed = _named(assumed, "assumed")
+        # after_loop: {loop ordinal: {name: expr}} cut-point assertions proved right after the loop, then assumed
+        self.after_loop = {k: _named(v, "a") for k, v in (after_loop or {}).items()}
+        # hints: {loop ordinal: [expr]} lemma calls / arithmetic facts proved at the loop head of each iteration
+        self.hints = hints or {}
+        # rt_only: ensures clauses evaluated only by the run-time checker (bounded), e.g. definitional cross-checks
+        self.rt_only = _named(rt_only, "rt")
 
 
 class Lemma:
@@ -62,7 +71,8 @@ class Lemma:
     Once proved it is available (quantified, with the stated trigger terms) to the VCs of the listed contracts."""
 
     def __init__(self, name, params, statement, props, induction=None, base="0", requires=None, hints=None,
-                 use_lemmas=()):
+                 use_lemmas=(), base_hints=None):
+        self.base_hints = base_hints or []
         self.name, self.params, self.statement, self.props = name, dict(params), statement, list(props)
         self.induction, self.base = induction, base
         self.requires = _named(requires, "h")
